@@ -1,5 +1,5 @@
 import Litep2pVerif.Common.Parse
-import Litep2pVerif.Model.Manager.Dial
+import Litep2pVerif.Model.Manager.Proto
 /-! Line-protocol driver for the connection-manager model (C05, C06). Same label discipline as the
 adapter `src/verif/c05.rs`: `as=cK` names the id of the attempt an operation starts; the first use
 of an unknown label in an event takes a fresh id from the shared counter. -/
@@ -7,7 +7,9 @@ namespace Litep2pVerif.Driver.C05
 open Litep2pVerif Litep2pVerif.Manager Parse
 
 structure State where
-  g : Option G := none
+  ps : Option PS := none
+  /-- automatic labels `q1, q2, ..` for attempts started by queued commands -/
+  auto : Nat := 0
   labels : List (String × Nat) := []
   names : List (Nat × String) := []
   /-- peers mentioned so far (the model's peer map is a total function) -/
@@ -130,30 +132,107 @@ def showRes : Res → String
   | .err .alreadyConnected => "err:connected" | .err .noAddressAvailable => "err:noaddr"
   | .err .peerIdMissing => "err:nopeerid" | .err .transportNotSupported => "err:unsupported"
 
-def observe (st : State) (g : G) (out : Out) : String :=
+def showSlot (st : State) : Slot → String
+  | .fill => "fill"
+  | .ev e =>
+    match e.kind with
+    | .est => s!"est:{e.peer}:{connName st e.conn}"
+    | .df => s!"df:{e.peer}:{if e.addrs.isEmpty then "-" else joinWith "|" (e.addrs.map showAddr)}"
+
+def observe (st : State) (ps : PS) (res : String) (out : Out) : String :=
   if out.panic then "panic debug-assert" else
+  let g := ps.g
   let states := st.seen.filterMap (fun p => (showState st (stateOf g.m p)).map (fun s => s!"{p}:{s}"))
-  s!"{showRes out.res} ; calls={dash (out.calls.map (showCall st))} ; ev={dash (out.events.map (showEv st))} ; st={dash states} ; pend={g.m.pending.length} acc={g.m.pendingAccept.length} lim={g.m.limits.incoming.length}/{g.m.limits.outgoing.length} oe={g.m.openingErrors.length}"
+  let base := s!"{res} ; calls={dash (out.calls.map (showCall st))} ; ev={dash (out.events.map (showEv st))} ; st={dash states} ; pend={g.m.pending.length} acc={g.m.pendingAccept.length} lim={g.m.limits.incoming.length}/{g.m.limits.outgoing.length} oe={g.m.openingErrors.length}"
+  if ps.order.isEmpty then base
+  else
+    let lens := (List.range ps.order.length).map (fun j => toString (ps.chans j).length)
+    s!"{base} ; susp={if ps.todo.isEmpty then "-" else "y"} cmd={ps.cmds.length} ch={joinWith "," lens}"
 
 /-- Resolve a label; an unknown one takes a fresh id (`In.alloc`). -/
-def connOf (st : State) (g : G) (l : String) : State × G × Nat :=
+def connOf (st : State) (ps : PS) (l : String) : State × PS × Nat :=
   match lookupLabel l st.labels with
-  | some c => (st, g, c)
+  | some c => (st, ps, c)
   | none =>
-    let c := g.m.nextConn
-    (bind st l c, (gstep g .alloc).1, c)
+    let c := ps.g.m.nextConn
+    (bind st l c, { ps with g := (gstep ps.g .alloc).1 }, c)
 
 def see (st : State) (ps : List Nat) : State :=
   { st with seen := ps.foldl (fun acc p => insertNat p acc) st.seen }
 
-/-- Run one model input and print. `label` = `as=` argument. -/
-def run (st : State) (g : G) (i : In) (label : Option String) : State × String :=
-  let (g', out) := gstep g i
-  let st1 := match label, out.calls.findSome? (fun c => match c with
-      | .dial c _ => some c | .open c _ => some c | _ => none) with
-    | some l, some c => bind st l c
+/-- All address lists of `open` calls in the implementation's observation (checker mode). -/
+def choicesOf (obs : String) : List (List Multiaddr) :=
+  (tokens obs).flatMap (fun t =>
+    let t := if t.startsWith "calls=" then (t.drop 6).toString else t
+    if t.startsWith "open:" then
+      match t.splitOn ":" with
+      | [_, _, addrs] => [(addrs.splitOn "|").filterMap parseAddr]
+      | _ => []
+    else [])
+
+/-- The address store's answer for a queued `DialPeer`: the candidate that is a legal answer. -/
+def pickChoice (ps : PS) (cands : List (List Multiaddr)) : List Multiaddr :=
+  match ps.cmds, ps.g.m.limits.onDialAddress with
+  | .dialPeer _ _ p :: _, some cap =>
+    (cands.find? (fun c => validChoice (ps.g.m.peers p).addresses cap c)).getD []
+  | _, _ => []
+
+/-- Poll the manager until nothing more happens: resume a blocked send when there is room, take
+queued commands. Accumulates calls, returned events and panics. -/
+def settle (cands : List (List Multiaddr)) : Nat → PS → Out → PS × Out
+  | 0, ps, acc => (ps, acc)
+  | fuel + 1, ps, acc =>
+    if !ps.todo.isEmpty then
+      let (ps', o) := resume ps
+      if o.busy then (ps, acc)
+      else settle cands fuel ps' { acc with events := acc.events ++ o.out.events }
+    else if !ps.cmds.isEmpty then
+      let (ps', o) := runCmd ps (pickChoice ps cands)
+      settle cands fuel ps' { acc with calls := acc.calls ++ o.out.calls, events := acc.events ++ o.out.events,
+                                        panic := acc.panic || o.out.panic }
+    else (ps, acc)
+
+/-- Name the attempts started in this operation: the `as=` label for the first one, `q1, q2, ..`
+for the others. -/
+def nameCalls (st : State) (label : Option String) (calls : List Call) : State :=
+  let started := calls.filterMap (fun c => match c with
+    | .dial c _ => some c | .open c _ => some c | _ => none)
+  let st1 := match label, started with
+    | some l, c :: _ => if (alookup c st.names).isSome then st else bind st l c
     | _, _ => st
-  ({ st1 with g := some g' }, observe st1 g' out)
+  started.foldl (fun st c =>
+    if (alookup c st.names).isSome then st
+    else bind { st with auto := st.auto + 1 } s!"q{st.auto + 1}" c) st1
+
+/-- Finish an operation: settle, name, print. -/
+def finish (st : State) (ps : PS) (res : String) (out : Out) (label : Option String) (obs : String) :
+    State × String :=
+  let (ps', out') := settle (choicesOf obs) 64 ps out
+  let st1 := nameCalls st label out'.calls
+  ({ st1 with ps := some ps' }, observe st1 ps' res out')
+
+/-- Run one model input and print. `label` = `as=` argument. -/
+def run (st : State) (ps : PS) (i : In) (label : Option String) (obs : String := "") : State × String :=
+  let (ps', o) := pstep ps (.base i)
+  if o.busy then ({ st with ps := some ps }, "busy")
+  else finish st ps' (showRes o.out.res) o.out label obs
+
+def showHRes : Option (Option HErr) → String
+  | some none => "ok"
+  | some (some .self) => "err:self"
+  | some (some .noaddr) => "err:noaddr"
+  | some (some .connected) => "err:connected"
+  | some (some .nopeerid) => "err:nopeerid"
+  | none => "-"
+
+/-- `order=1,0` of the implementation's answer to `protocols`, if it is a permutation of `0..n-1`. -/
+def orderOf (n : Nat) (obs : String) : List Nat :=
+  match (tokens obs).findSome? (fun t => if t.startsWith "order=" then some (t.drop 6).toString else none) with
+  | none => List.range n
+  | some v =>
+    match (v.splitOn ",").mapM (fun x => x.toNat?) with
+    | some l => if l.length = n ∧ l.Nodup ∧ l.all (· < n) then l else List.range n
+    | none => List.range n
 
 def limit? (s : String) : Option (Option Nat) :=
   if s = "none" then some none else s.toNat?.map some
@@ -170,66 +249,119 @@ def choiceOf (obs : String) : List Multiaddr :=
     | [_, addrs] => (addrs.splitOn "|").filterMap parseAddr
     | _ => []
 
+def isProtoOp : List String → Bool
+  | "pdial" :: _ => true
+  | "pdialaddr" :: _ => true
+  | "pfill" :: _ => true
+  | "pdrain" :: _ => true
+  | "protocols" :: _ => true
+  | _ => false
+
+def proto? (ps : PS) (j : String) : Option Nat :=
+  match j.toNat? with
+  | some j => if j < ps.order.length then some j else none
+  | none => none
+
 def step (st : State) (line : String) : State × String :=
   let (opPart, obsPart) := match line.splitOn " -> " with
     | [a, b] => (a, b)
     | _ => (line, "")
   let ts := tokens opPart
   let label := arg? "as" ts
-  match ts, st.g with
+  match ts, st.ps with
   | ["limits", a, b], _ =>
     match limit? a, limit? b with
-    | some a, some b => ({ g := some (G.init ⟨a, b⟩) }, "ok")
+    | some a, some b => ({ ps := some { g := G.init ⟨a, b⟩ } }, "ok")
     | _, _ => (st, "bad-op")
   | _, none => (st, "bad-op")
-  | ["addknown", p, as], some g =>
-    match p.toNat?, (as.splitOn ",").mapM parseAddr with
-    | some p, some as => run (see st [p]) g (.addKnown p as) none
+  | ["protocols", n, cap], some ps =>
+    match n.toNat?, (if cap.startsWith "cap=" then (cap.drop 4).toString.toNat? else none) with
+    | some n, some cap =>
+      if !ps.order.isEmpty || !ps.todo.isEmpty || n = 0 || n > 3 || cap = 0 || cap > 8 then (st, "bad-op")
+      else
+        let order := orderOf n obsPart
+        ({ st with ps := some { ps with cap := cap, order := order } },
+          s!"ok order={joinWith "," (order.map toString)}")
     | _, _ => (st, "bad-op")
-  | "dial" :: p :: _, some g =>
-    match p.toNat? with
-    | some p => run (see st [p]) g (.dial p (choiceOf obsPart)) label
-    | none => (st, "bad-op")
-  | "dialaddr" :: a :: _, some g =>
-    match parseAddr a with
-    | some a => run (see st (peersOfAddr a)) g (.dialAddress a) label
-    | none => (st, "bad-op")
-  | "ev" :: "established" :: p :: c :: a :: dir :: rest, some g =>
-    match p.toNat?, parseAddr a, (if dir = "dialer" then some false else if dir = "listener" then some true else none) with
-    | some p, some a, some isL =>
-      let (st1, g1, c) := connOf st g c
-      run (see st1 (p :: peersOfAddr a)) g1 (.evEstablished p ⟨isL, a, c⟩ (!rest.contains "acceptfail")) none
-    | _, _, _ => (st, "bad-op")
-  | "ev" :: "opened" :: c :: a :: rest, some g =>
-    match parseAddr a, parseErrs rest with
-    | some a, some errs =>
-      let (st1, g1, c) := connOf st g c
-      run (see st1 (peersOfAddr a ++ (errs.map (fun e => peersOfAddr e.1)).flatten)) g1 (.evOpened c a errs) none
+  | ["pdial", j, p], some ps =>
+    match proto? ps j, p.toNat? with
+    | some j, some p =>
+      let (ps', o) := pstep ps (.pdial j p)
+      finish (see st [p]) ps' (showHRes o.hres) {} none obsPart
     | _, _ => (st, "bad-op")
-  | "ev" :: "openfail" :: c :: rest, some g =>
-    match parseErrs rest with
-    | some errs =>
-      let (st1, g1, c) := connOf st g c
-      run (see st1 ((errs.map (fun e => peersOfAddr e.1)).flatten)) g1 (.evOpenFailure c errs) none
+  | ["pdialaddr", j, a], some ps =>
+    match proto? ps j, parseAddr a with
+    | some j, some a =>
+      let (ps', o) := pstep ps (.pdialAddr j a)
+      finish (see st (peersOfAddr a)) ps' (showHRes o.hres) {} none obsPart
+    | _, _ => (st, "bad-op")
+  | ["pfill", j], some ps =>
+    match proto? ps j with
+    | some j =>
+      let (ps', o) := pstep ps (.pfill j)
+      finish st ps' s!"n={o.filled}" {} none obsPart
     | none => (st, "bad-op")
-  | ["ev", "dialfail", c, a, k], some g =>
-    match parseAddr a with
-    | some a =>
-      let (st1, g1, c) := connOf st g c
-      run (see st1 (peersOfAddr a)) g1 (.evDialFailure c a (parseKind k)) none
+  | ["pdrain", j], some ps =>
+    match proto? ps j with
+    | some j =>
+      let (ps', o) := pstep ps (.pdrain j)
+      finish st ps' s!"got={if o.got.isEmpty then "-" else joinWith "," (o.got.map (showSlot st))}" {} none obsPart
     | none => (st, "bad-op")
-  | ["ev", "pendingin", c], some g =>
-    let (st1, g1, c) := connOf st g c
-    run st1 g1 (.evPendingInbound c) none
-  | ["ev", "closed", p, c], some g =>
-    match p.toNat? with
-    | some p =>
-      let (st1, g1, c) := connOf st g c
-      run (see st1 [p]) g1 (.evClosed p c) none
-    | none => (st, "bad-op")
-  | ["accepted", c, how], some g =>
-    let (st1, g1, c) := connOf st g c
-    run st1 g1 (.acceptResult c (how = "ok")) none
-  | _, _ => (st, "bad-op")
+  | ts, some ps =>
+    -- the application and the scripted environment wait while the manager is blocked
+    if !ps.todo.isEmpty then (st, "busy")
+    else
+    match ts with
+    | ["addknown", p, as] =>
+      match p.toNat?, (as.splitOn ",").mapM parseAddr with
+      | some p, some as => run (see st [p]) ps (.addKnown p as) none
+      | _, _ => (st, "bad-op")
+    | "dial" :: p :: _ =>
+      match p.toNat? with
+      | some p => run (see st [p]) ps (.dial p (choiceOf obsPart)) label
+      | none => (st, "bad-op")
+    | "dialaddr" :: a :: _ =>
+      match parseAddr a with
+      | some a => run (see st (peersOfAddr a)) ps (.dialAddress a) label
+      | none => (st, "bad-op")
+    | "ev" :: "established" :: p :: c :: a :: dir :: rest =>
+      match p.toNat?, parseAddr a, (if dir = "dialer" then some false else if dir = "listener" then some true else none) with
+      | some p, some a, some isL =>
+        let (st1, ps1, c) := connOf st ps c
+        run (see st1 (p :: peersOfAddr a)) ps1 (.evEstablished p ⟨isL, a, c⟩ (!rest.contains "acceptfail")) none
+      | _, _, _ => (st, "bad-op")
+    | "ev" :: "opened" :: c :: a :: rest =>
+      match parseAddr a, parseErrs rest with
+      | some a, some errs =>
+        let (st1, ps1, c) := connOf st ps c
+        run (see st1 (peersOfAddr a ++ (errs.map (fun e => peersOfAddr e.1)).flatten)) ps1 (.evOpened c a errs) none
+      | _, _ => (st, "bad-op")
+    | "ev" :: "openfail" :: c :: rest =>
+      match parseErrs rest with
+      | some errs =>
+        let (st1, ps1, c) := connOf st ps c
+        run (see st1 ((errs.map (fun e => peersOfAddr e.1)).flatten)) ps1 (.evOpenFailure c errs) none
+      | none => (st, "bad-op")
+    | ["ev", "dialfail", c, a, k] =>
+      match parseAddr a with
+      | some a =>
+        let (st1, ps1, c) := connOf st ps c
+        run (see st1 (peersOfAddr a)) ps1 (.evDialFailure c a (parseKind k)) none
+      | none => (st, "bad-op")
+    | ["ev", "pendingin", c] =>
+      let (st1, ps1, c) := connOf st ps c
+      run st1 ps1 (.evPendingInbound c) none
+    | ["ev", "closed", p, c] =>
+      match p.toNat? with
+      | some p =>
+        let (st1, ps1, c) := connOf st ps c
+        run (see st1 [p]) ps1 (.evClosed p c) none
+      | none => (st, "bad-op")
+    | ["accepted", c, how] =>
+      if how = "ok" && anyFull ps then (st, "busy")
+      else
+        let (st1, ps1, c) := connOf st ps c
+        run st1 ps1 (.acceptResult c (how = "ok")) none
+    | _ => (st, "bad-op")
 
 end Litep2pVerif.Driver.C05
